@@ -1,6 +1,7 @@
 package main
 
 import (
+	"fmt"
 	"verif/mc"
 )
 
@@ -56,6 +57,11 @@ func register(r *mc.Registry) {
 	}
 	add("iter/concat-state/p3", 3, iterConcatState(false, inputs3))
 	add("iter/concat-state/p4", 4, iterConcatState(true, inputs3))
+	tieLen := 4
+	if r.Thorough() {
+		tieLen = 5
+	}
+	add("ties/ops", 3, tiesScenario(allItemInputs(tieLen)))
 	add("iter/two-sided", 3, iterTwoSided(inputs))
 	add("iter/sources", 2, iterSources(inputs))
 	if r.Thorough() {
@@ -74,7 +80,7 @@ func register(r *mc.Registry) {
 		"non-termination is decided by a budget of 4000 (lists: 6000) callback invocations/pulls/probes per run on inputs of length <= 5",
 		"list demand = the cells whose emptiness/head/tail the consumer asked for; a memoised list evaluates each cell at most once = generator(i) of list.Generate/GenerateFrom is invoked at most once per index over the demand and a complete re-traversal (and an iterator-backed list yields the same values again)",
 		"on finite sources the direct (unwrapped) multi-stage pipeline is run for the largest demand only: the calls of every smaller demand are a prefix of its calls",
-		"Min/Max over ints: which of several equal minimal elements is returned is not observable and not demanded",
+		"ties (scenario ties/ops): elements item{Key,Tag} with Ord/Eq/Hashable/key functions that look at Key only; the Iterator and List functions must give exactly what the eager package-seq counterpart gives on the same elements (which of several equivalent elements Min/Max/ToSet/ToMap keep, the order Sort leaves them in, group order, which duplicate key wins); the oracle there is the library's own seq function, not a harness loop",
 		"end-to-end bound (Iterator pipelines): needs are propagated from the consumer to the original source, need_i = shortest prefix of stage i's reference input that fixes its answers to what stage i+1 may ask (brute force, bisection), allow_i = max(need_i, Drop's eager skip) + declared look-ahead (0; ToList/Collect prefetch 1; Zip(src,other) 1 because Zip asks its first argument first); a trailing HasNext that the reference answers with true counts as asking for that element; pulls from the original source <= allow_0 + 2; checked on inputs followed by a tail of 8 irrelevant elements (scenarios iter/e2e/*) and on the unbounded generators (a run must come back within the bound whenever allow_0 is finite)",
 	}
 	r.Extra["bounds"] = map[string]any{
@@ -96,6 +102,7 @@ func register(r *mc.Registry) {
 		"list_demand_patterns":        patNames,
 		"terminals_after_one_stage":   "quick: inputs up to length 3; thorough: the full input bound",
 		"pipelines_of_3":              "thorough only, inputs up to length 3, first two entries of every parameter alphabet",
+		"ties":                        map[string]any{"alphabet": fmt.Sprint(itemAlphabet), "max_input_len": tieLen, "ords": names(itemOrds, func(o ordSpec) string { return o.name }), "operations": names(tieOps, func(o tieOp) string { return o.name }), "iterator_sources": itemIterKinds, "list_sources": itemListKinds},
 		"budget_per_run":              4000, "unbounded_horizon": horizon, "unbounded_decided_at": decidedAt, "unbounded_pull_limit": pullLimit,
 	}
 	r.Extra["uncovered"] = []string{
